@@ -146,6 +146,41 @@ def run(pid, tier, replay=None):
         chk.violation("C18:genesis_evidence_not_reproduced_with_real_scrypt", {})
     d = os.path.join(sk.REPO, "tests/testdata/chain")
     names = sorted(os.listdir(d))
+    # (c0) -- before anything else in this process validates them -- the real blocks when invalid look-alikes were offered first: same parent, transactions and nonce, but a timestamp one
+    #      second later / the very same summary, with junk evidence ground (cheap double SHA-256 only) until the id is below the target.
+    #      They must be refused, and whatever the node remembered while refusing them must not make it refuse the real block.
+    from skepticoin.datatypes import BlockHeader, BlockSummary, PowEvidence
+    w4 = sk.World(cfg2, keys)
+    g4 = Block.deserialize(genesis_block_data)
+    w4.by_abs[0] = g4
+    w4.register(g4)
+    rec3 = ledger_drv.Recorder(w4, 9002, full=True, snapshots=False)
+    rec3.start(g4)
+
+    def lookalike(b, dts):
+        s_ = b.header.summary
+        summ = BlockSummary(s_.height, s_.previous_block_hash, s_.merkle_root_hash, s_.timestamp + dts, s_.target, s_.nonce)
+        for k in range(200000):
+            ev_ = PowEvidence(indep.sha256d(b"junk%d" % k), b.header.pow_evidence.chain_sample, indep.sha256d(b"junk-bh%d" % k))
+            la = Block(BlockHeader(summ, ev_), list(b.transactions))
+            if indep.blockid(la) < s_.target:
+                return la
+        return None
+    for fn in names[:3 if quick else len(names)]:
+        b = Block.deserialize(open(os.path.join(d, fn), "rb").read())
+        for dts in (1, 0):
+            la = lookalike(b, dts)
+            if la is None:
+                continue
+            res = rec3.add(la, b.timestamp + 2, validated=True, label={"lookalike_of": b.height, "dts": dts})
+            chk.case(("lookalike", fn, dts), nontrivial=True)
+            if res == "ok":
+                chk.violation("C18:block_with_forged_evidence_accepted_next_to_a_recorded_block", {"height": b.height, "timestamp_shift": dts})
+        res = rec3.add(b, b.timestamp + 1, validated=True, label={"recorded": fn})
+        if res != "ok":
+            chk.violation("C18:recorded_real_block_rejected_by_full_validation",
+                          {"file": fn, "rule": rec3.events[-1]["rule"], "scenario": "invalid look-alikes of the block were offered first"})
+            break
     for fn in names:
         b = Block.deserialize(open(os.path.join(d, fn), "rb").read())
         hh, idhex = fn.split("-")
